@@ -84,7 +84,7 @@ def looping_cubic(rng, scale=300.0):
     return c
 
 
-PAIR_FAMILIES = ['symmetric', 'random', 'random-int', 'through', 'through', 'tiny', 'small', 'thin-axis', 'thin-near-axis', 'straight', 'loop', 'overlap-no-cross', 'split-piece', 'arch']
+PAIR_FAMILIES = ['symmetric', 'random', 'random-int', 'through', 'through', 'tiny', 'small', 'thin-axis', 'thin-near-axis', 'straight', 'loop', 'overlap-no-cross', 'split-piece', 'arch', 'origin-corner']
 
 
 def piece_of(parent_json, t, k):
@@ -127,6 +127,17 @@ def gen_pair(rng, fam=None):
         p1, p2 = a.pointAtTime(t1), a.pointAtTime(t2)
         apex = a.pointAtTime(0.5); base = a[0].lerp(a[2], 0.5); out = (apex - base)
         b = QuadraticBezier(p1 + (p1 - p2) * 0.5 + out * rng.uniform(0.0, 0.3), p1.lerp(p2, 0.5) + out * rng.uniform(-0.25, -0.05), p2 + (p2 - p1) * 0.5 + out * rng.uniform(0.0, 0.3))
+        return fam, a, b
+    if fam == 'origin-corner':
+        # a curve that starts (or ends) EXACTLY at the origin and stays in one quadrant: its box, and the box of the first piece at every level
+        # of the subdivision, has a corner at exactly (0.0, 0.0)
+        sx, sy = rng.choice([-1, 1]), rng.choice([-1, 1]); k = rng.choice([3, 4])
+        ps = [P(0.0, 0.0)] + [P(sx * rng.uniform(20, 400), sy * rng.uniform(20, 400)) for _ in range(k - 1)]
+        if rng.random() < 0.3: ps = [P(float(round(q.x)), float(round(q.y))) for q in ps]
+        if rng.random() < 0.5: ps.reverse()
+        a = gen.KINDS[k](*ps)
+        b = through(rng, a)
+        if rng.random() < 0.5: a, b = b, a
         return fam, a, b
     if fam == 'random': return fam, rcurve(rng), rcurve(rng)
     if fam == 'random-int': return fam, rcurve(rng, integer=True), rcurve(rng, integer=True)
